@@ -923,13 +923,13 @@ package analysis
 //@ func isAbsent(target)
 //@   pure
 //@   assumed
-//@ fun localRefsOK(s *Spec) bool = forall k in dom(s.references.allRefs) :: s.references.allRefs[k].HasFragmentOnly ==> ptrOK(*s.references.allRefs[k].GetPointer(), box(s.spec)) && !isAbsent(ptrObj(*s.references.allRefs[k].GetPointer(), box(s.spec)))
+//@ fun localRefsOK(s *Spec) bool = forall k in dom(s.references.allRefs) :: s.references.allRefs[k].HasFragmentOnly ==> ptrOK(*s.references.allRefs[k].GetPointer(), box(s.spec)) && !isAbsent(ptrObj(*s.references.allRefs[k].GetPointer(), box(s.spec))) && !(s.references.allRefs[k].GetURL() != nil && s.references.allRefs[k].GetURL().Fragment != "" && s.references.allRefs[k].GetPointer().IsEmpty())
 
 //@ func checkLocalRefs(opts)
 //@   requires opts != nil && opts.Spec != nil && opts.Spec.spec != nil
 //@   modifies nothing
 //@   ensures result == nil && !opts.ContinueOnError ==> localRefsOK(opts.Spec)
-//@   loop 1: invariant forall k in seen :: opts.Spec.references.allRefs[k].HasFragmentOnly ==> ptrOK(*opts.Spec.references.allRefs[k].GetPointer(), box(opts.Spec.spec)) && !isAbsent(ptrObj(*opts.Spec.references.allRefs[k].GetPointer(), box(opts.Spec.spec)))
+//@   loop 1: invariant forall k in seen :: opts.Spec.references.allRefs[k].HasFragmentOnly ==> ptrOK(*opts.Spec.references.allRefs[k].GetPointer(), box(opts.Spec.spec)) && !isAbsent(ptrObj(*opts.Spec.references.allRefs[k].GetPointer(), box(opts.Spec.spec))) && !(opts.Spec.references.allRefs[k].GetURL() != nil && opts.Spec.references.allRefs[k].GetURL().Fragment != "" && opts.Spec.references.allRefs[k].GetPointer().IsEmpty())
 
 // Flatten does not go past the import of references with a local $ref that does not resolve (unless ContinueOnError)
 //@ func Flatten(opts)
